@@ -98,6 +98,11 @@ class ExcHier:
             return out
         if isinstance(e, ast.Call):
             e = e.func
+        if isinstance(e, ast.Name) and isinstance(m.assigns.get(e.id), ast.Tuple):
+            # NAME = (ErrA, ErrB, ...) at module level, bound exactly once: `except NAME:` catches those classes
+            n_bind = sum(1 for x in ast.walk(m.tree) if isinstance(x, ast.Name) and x.id == e.id and not isinstance(x.ctx, ast.Load))
+            if n_bind == 1 and all(isinstance(x, (ast.Name, ast.Attribute)) for x in m.assigns[e.id].elts):
+                return self.resolve(m, m.assigns[e.id])
         q = self.prog.resolve_name_in_module(m, e)
         return [self.canon(q)]
 
